@@ -378,6 +378,7 @@ class Crate:
                     f['mod'], f['file'], f['qname'], f['impl_of'] = name, file, q, ty
                     self.fns[q] = f
             elif k == 'Trait':
+                self.__dict__.setdefault('traits', {})[f"{name}::{it['name']}"] = it
                 # provided (default) methods of a crate trait: rustc names them `<module>::<Trait>::<method>`
                 for f in it.get('fns') or []:
                     if f.get('cfg_test'):
@@ -497,6 +498,8 @@ class Crate:
                         ok = ok and plain
                     elif tr.split('::')[-1].split('<')[0] in ('Ord', 'PartialOrd', 'PartialEq', 'Eq', 'Hash'):
                         ok = False      # hand-written comparison: not the wrapped value's
+                    elif any(k_.startswith(mod_ + '::') and k_.rsplit('::', 1)[-1] == tr.split('::')[-1].split('<')[0] for k_ in self.__dict__.get('traits', {})):
+                        ok = False      # implements a trait of the crate: its type selects behaviour (a strategy object), it is not just its field
         cache[path] = ok
         return ok
 
@@ -545,6 +548,8 @@ class Crate:
                     for _, t in b.calls():
                         callee = t['callee'] or t['raw']
                         sp = t.get('span') or {}
+                        if (t.get('self_ty') or '').startswith('dyn ') or not t.get('callee'):
+                            continue        # dynamic dispatch / a bounded type parameter: which implementation runs is not decided at this call site
                         if callee in mir.bodies and mir.bodies[callee].kind != 'Closure' and not sp.get('exp') and sp.get('file'):
                             q = 'crate::' + norm(callee)
                             if q not in self.fns:
@@ -1970,6 +1975,20 @@ class Interp:
                     nxt[0] += 1
                 return '{' + spec + '}'
             norm = re.sub(r'\{([A-Za-z_][A-Za-z0-9_]*|[0-9]+)?(:[^}]*)?\}', sub, tmpl.replace('{{', '\x00').replace('}}', '\x01')).replace('\x00', '{{').replace('\x01', '}}')
+            # a placeholder filled with a string literal (`format!("{prefix}{name}{suffix}")` in a helper called with "ENTRY_" and "") is that text
+            if any(isinstance(o_, tuple) and o_[0] == 'lit' and o_[1] == 'str' for o_ in ordered):
+                parts, kept, k_ = re.split(r'(\{\{|\}\}|\{[^{}]*\})', norm), [], 0
+                for i_, pt in enumerate(parts):
+                    if pt.startswith('{') and pt.endswith('}') and pt not in ('{{', '}}'):
+                        o_ = ordered[k_]
+                        k_ += 1
+                        if pt == '{}' and isinstance(o_, tuple) and o_[0] == 'lit' and o_[1] == 'str' and isinstance(o_[2], str):
+                            parts[i_] = o_[2].replace('{', '{{').replace('}', '}}')
+                        else:
+                            kept.append(o_)
+                norm, ordered = ''.join(parts), kept
+                if not ordered and '{' not in norm:
+                    return ('lit', 'str', norm)
             if norm == '{}' and len(ordered) == 1:
                 return ordered[0]       # format!("{}", x) is the text of x (to_string() is an identity on text in this domain, see IDENTITY)
             return ('fmt', norm, ordered, [])
@@ -2255,12 +2274,16 @@ class Interp:
                 self.inline_calls.append((self.frame['callee'], p, e['line']))
                 return self.call_fn(p, args, line=e['line'])
             last = segs[-1]
+            if last == 'new' and len(args) == 1 and len(segs) >= 2 and segs[-2] in ('Box', 'Rc', 'Arc'):
+                return args[0]      # a smart pointer to the value: the value (ownership is not modelled)
             if args and '::' in p and p.rsplit('::', 1)[0] in self.c.enums and p not in self.c.fns and \
                     any(v_['name'] == last for v_ in self.c.enums[p.rsplit('::', 1)[0]].get('variants', [])):
                 # a tuple variant of a crate enum: a constructed value with positional fields
                 return ('struct', p, {str(i_): a_ for i_, a_ in enumerate(args)})
             if len(args) == 1 and p in self.c.structs and self.c.is_newtype(p):
                 return args[0]      # transparent newtype: the wrapped value
+            if args and p in self.c.structs and [fl.get('name') for fl in self.c.structs[p].get('fields', [])] == [str(i_) for i_ in range(len(args))]:
+                return ('struct', p, {str(i_): a_ for i_, a_ in enumerate(args)})      # a tuple struct of the crate: positional fields
             if last in ('from', 'try_from') and len(args) == 1 and len(segs) >= 2:
                 tyq = self.resolve(segs[:-1])
                 if tyq in self.c.enums or tyq in self.c.structs:
@@ -2381,10 +2404,21 @@ class Interp:
         if fn[0] == 'path' and fn[1] in self.c.fns:
             self.inline_calls.append((self.frame['callee'], fn[1], 0))
             return self.call_fn(fn[1], args)
+        if fn[0] == 'path' and args and fn[1] not in self.c.fns and len(fn[1].split('::')) == 2 and \
+                fn[1].split('::')[0] in ('str', 'String', 'char', 'u8', 'u16', 'u32', 'u64', 'usize', 'i8', 'i16', 'i32', 'i64', 'isize', 'f32', 'f64', 'bool') and \
+                fn[1].split('::')[1] not in ('max', 'min', 'from', 'new'):
+            # a method of a primitive / string type passed as a function (`case: impl Fn(&str) -> String` called with `str::to_uppercase`): x.method(..)
+            return self.e_MethodCall_value(args[0], fn[1].split('::')[1], args[1:])
         if fn[0] == 'path' and len(args) == 2 and fn[1].split('::')[-1] in ('max', 'min') and \
                 fn[1].rsplit('::', 1)[0].split('::')[-1] in ('usize', 'u32', 'u64', 'i32', 'i64', 'u8', 'u16', 'Ord', 'cmp'):
             return ('mcall', args[0], fn[1].split('::')[-1], [args[1]])        # `usize::max` / `std::cmp::max` passed as a function: a.max(b)
         return ('callv', fn, args)
+
+    def e_MethodCall_value(self, recv, m, args):
+        """the value of `recv.m(args)` for already evaluated operands, for the methods that need no syntax (identity-like and plain library methods)"""
+        if m in self.IDENTITY and not args:
+            return recv
+        return ('mcall', recv, m, list(args))
 
     def apply_detached(self, clo, args):
         """apply a closure term outside any function evaluation (used by rules to read off what a key / comparison closure computes)"""
